@@ -102,6 +102,7 @@ def analyse(t, ob):
     pc = t["pc"]
     members = []
     last_listing = []
+    epoch = {}
     for i, (op, o) in enumerate(zip(t["ops"], ob["outs"])):
         k = op["op"]
         if o.get("r") != "ok" and k not in ("poll",):
@@ -123,6 +124,10 @@ def analyse(t, ob):
             pc += op["n"]
             pending = ("re", pc)
         elif k == "delete_partitions":
+            # the deleted partitions are gone with their messages and stored offsets: a partition created later under the same
+            # number is a different one (delivery starts over there)
+            for gone in range(pc - op["n"] + 1, pc + 1):
+                epoch[gone] = epoch.get(gone, 0) + 1
             pc -= op["n"]
             pending = ("re", pc)
         elif k == "get_group":
@@ -146,7 +151,7 @@ def analyse(t, ob):
             gops.append(C("GCalc", c))
             checks.append((len(gops) - 1, 1 if o["pid"] == 0 else o["pid"] + 2))
             if o["pid"] != 0:
-                polls.append((o["pid"], [m["o"] for m in o["msgs"]]))
+                polls.append((o["pid"] + 1000 * epoch.get(o["pid"], 0), [m["o"] for m in o["msgs"]]))
                 share = sorted(next((m["parts"] for m in last_listing if m["id"] == c), []))
                 visits.setdefault(c, (share, []))[1].append(o["pid"])
                 checks[-1] = checks[-1] + ((c, share, list(visits[c][1])),)
